@@ -1844,9 +1844,9 @@ func (c *Conn) protectedReplayMarker(epoch uint16, sequenceNumber uint64) (func(
 }
 
 // newestRecord tells whether the record that was just accepted is the newest
-// one received from the peer [RFC9146 Section-6]. The replay window alone
-// cannot tell: it reports sequence number 0 as its newest whenever that
-// arrives.
+// one received from the peer, by epoch and sequence number
+// [RFC9146 Section-6]. The replay window alone cannot tell: it knows one epoch
+// only and reports sequence number 0 as its newest whenever that arrives.
 func (c *Conn) newestRecord(epoch uint16, sequenceNumber uint64, latest bool) bool {
 	for len(c.replayAccepted) <= int(epoch) {
 		c.replayAccepted = append(c.replayAccepted, false)
@@ -1857,7 +1857,7 @@ func (c *Conn) newestRecord(epoch uint16, sequenceNumber uint64, latest bool) bo
 		return false
 	}
 
-	return latest
+	return latest && epoch == dtlsstate.CommonState(c.state).RemoteEpoch()
 }
 
 func (c *Conn) queueIfCipherSuiteUninitialized(
